@@ -2,7 +2,8 @@
    definition per flavour CLASS; plain/sync equality is C15's correspondence).
    Every statement is for an arbitrary heap satisfying Inv and arbitrary operands, u = v included. *)
 From Gdsl.Model Require Import Spec.
-From Gdsl.Proofs Require Import NodeD NodeU.
+From Gdsl.Proofs Require Import NodeD NodeU ConcProof.
+From Gdsl.Model Require Import Conc.
 
 (* connect: exactly one new edge, last among the source's outgoing and the target's incoming edges
    (for undirected: last outbound half at the caller, last inbound half at the callee); nothing else changes *)
@@ -120,3 +121,29 @@ Theorem c03_step_undirected :
     Inv (fst (step_u keqb h o)) /\ snd (step_u keqb h o) <> Panic.
 Proof. exact step_u_inv. Qed.
 Print Assumptions c03_step_undirected.
+
+(* "No such call ... deadlocks or hangs": the micro-step model of the SYNC flavours (coq/model/Conc.v: every call is its
+   sequence of critical sections, each holding ONE guard on ONE node; that no guard of the thread is alive when the next
+   one is requested is what the lock-point hook checks on the real code at every acquisition, section 3.3).  For programs
+   of any number of threads — one thread included — and any heap (self-loops u = v included): a thread never holds two
+   guards, and no reachable configuration is deadlocked, so a call never waits for a guard its own thread holds.
+   (The plain flavours follow the same statement order with RefCell borrows; their agreement with the sync twins is C15.) *)
+Theorem c03_one_guard_at_a_time :
+  forall (K V E : Type) (keqb : K -> K -> bool) (directed : bool) (h : heap K V E)
+         (progs : list (list (call K E))) (c : gconfig K V E),
+       greach keqb directed (ginit keqb directed h progs) c ->
+       (forall tid : nat, length (filter (fun g : guard => g_tid g =? tid) (gc_held c)) <= 1) /\
+       (forall g : guard,
+        In g (gc_held c) ->
+        exists (t : thread K V E) (u : nat) (w : bool) (k : heap K V E -> heap K V E * prog K V E),
+          nth_error (c_threads (gc_cfg c)) (g_tid g) = Some t /\
+          t_status t = TRun /\ t_cur t = Some (Step u w k) /\ g_node g = u /\ g_write g = w).
+Proof. exact one_guard_per_thread. Qed.
+Print Assumptions c03_one_guard_at_a_time.
+
+Theorem c03_no_self_deadlock :
+  forall (K V E : Type) (keqb : K -> K -> bool) (directed : bool) (h : heap K V E)
+         (progs : list (list (call K E))) (c : gconfig K V E),
+       greach keqb directed (ginit keqb directed h progs) c -> ~ deadlocked keqb directed c.
+Proof. exact no_deadlock. Qed.
+Print Assumptions c03_no_self_deadlock.
